@@ -37,12 +37,13 @@ func procRepoDir() string {
 type procSrc struct {
 	funcs  map[string]*ast.FuncDecl
 	byName map[string][]*ast.FuncDecl // methods and functions by bare name
+	byRecv map[string][]*ast.FuncDecl // methods by receiver type
 	fields map[string]int             // channel fields of the transfer object: capacity
 	consts map[string]int
 }
 
 func procLoad() *procSrc {
-	ps := &procSrc{funcs: map[string]*ast.FuncDecl{}, consts: map[string]int{}, byName: map[string][]*ast.FuncDecl{}, fields: map[string]int{}}
+	ps := &procSrc{funcs: map[string]*ast.FuncDecl{}, consts: map[string]int{}, byName: map[string][]*ast.FuncDecl{}, byRecv: map[string][]*ast.FuncDecl{}, fields: map[string]int{}}
 	fset := token.NewFileSet()
 	if f, err := parser.ParseFile(fset, filepath.Join(procRepoDir(), "transfer.go"), nil, 0); err == nil {
 		ast.Inspect(f, func(n ast.Node) bool {
@@ -71,6 +72,15 @@ func procLoad() *procSrc {
 			case *ast.FuncDecl:
 				ps.funcs[d.Name.Name] = d
 				ps.byName[d.Name.Name] = append(ps.byName[d.Name.Name], d)
+				if d.Recv != nil && len(d.Recv.List) == 1 {
+					t := d.Recv.List[0].Type
+					if st, ok := t.(*ast.StarExpr); ok {
+						t = st.X
+					}
+					if id, ok := t.(*ast.Ident); ok {
+						ps.byRecv[id.Name] = append(ps.byRecv[id.Name], d)
+					}
+				}
 			case *ast.GenDecl:
 				for _, sp := range d.Specs {
 					if vs, ok := sp.(*ast.ValueSpec); ok && d.Tok == token.CONST && len(vs.Values) == 1 {
@@ -112,15 +122,33 @@ func (ps *procSrc) procCount(mainFn string) string {
 			continue
 		}
 		seen[fd] = true
+		self := ""
+		if fd.Recv != nil && len(fd.Recv.List) == 1 && len(fd.Recv.List[0].Names) == 1 {
+			self = fd.Recv.List[0].Names[0].Name
+		}
 		ast.Inspect(fd.Body, func(n ast.Node) bool {
 			switch n := n.(type) {
 			case *ast.SelectorExpr:
 				if _, ok := ps.fields[n.Sel.Name]; ok {
 					used[n.Sel.Name] = true
 				}
-				todo = append(todo, ps.byName[n.Sel.Name]...)
-			case *ast.Ident:
-				todo = append(todo, ps.byName[n.Name]...)
+			case *ast.CallExpr:
+				switch fun := n.Fun.(type) {
+				case *ast.Ident: // plain call; a constructor newT also brings in the methods of t
+					for _, d := range ps.byName[fun.Name] {
+						if d.Recv == nil {
+							todo = append(todo, d)
+						}
+					}
+					if strings.HasPrefix(fun.Name, "new") && len(fun.Name) > 3 {
+						typ := strings.ToLower(fun.Name[3:4]) + fun.Name[4:]
+						todo = append(todo, ps.byRecv[typ]...)
+					}
+				case *ast.SelectorExpr: // method call on the function's own receiver
+					if id, ok := fun.X.(*ast.Ident); ok && self != "" && id.Name == self {
+						todo = append(todo, ps.byName[fun.Sel.Name]...)
+					}
+				}
 			}
 			return true
 		})
